@@ -106,13 +106,25 @@ def python_text(sc, ap, order_seed, id_salt=None):
 PREBUILT_TYPES = {}      # tuple(f_values) -> user type map made at worker start (default index variables)
 
 
-def fortran_text(sc, ap, order_seed, id_salt=None, utm=None):
+def fortran_text(sc, ap, order_seed, id_salt=None, utm=None, options=None):
     import dagrt.codegen.fortran as f
     from simdag.gen.fortran_subset import make_registry, module_preamble, user_type_map
     code = build_dag(sc, ap, order_seed, id_salt=id_salt)
     freg, _twins = make_registry(sc)
+    kw = {}
+    options = options or {}
+    if options.get("instrumented"):
+        # generator configuration: phase/function counters and timers
+        kw.update(emit_instrumentation=True, timing_function="second")
+    if options.get("hooks"):
+        # ... and two notification functions around every state update (the method does not call them itself)
+        from dagrt.function_registry import register_function
+        for fn in ("notify_pre", "notify_post"):
+            freg = register_function(freg, fn, ("updated_component",), result_names=(), result_kinds=())
+            freg = freg.register_codegen(fn, "fortran", f.CallCode("\n    ! %s\n    " % fn))
+        kw.update(call_before_state_update="notify_pre", call_after_state_update="notify_post")
     cg = f.CodeGenerator("m", function_registry=freg, user_type_map=utm if utm is not None else user_type_map(sc),
-                         module_preamble=module_preamble(sc))
+                         module_preamble=module_preamble(sc), **kw)
     buf = io.StringIO()
     with contextlib.redirect_stdout(buf):
         return cg(code)
@@ -226,7 +238,8 @@ def job_c15(job):
                     fortran_text(scf, apf, None, None, utm=utm)
                 except Exception:
                     pass
-            out["fortran"] = fortran_text(scf, apf, job.get("order_seed"), job.get("id_salt"), utm=utm)
+            out["fortran"] = fortran_text(scf, apf, job.get("order_seed"), job.get("id_salt"), utm=utm,
+                                          options=job.get("f_options"))
         except Exception as e:
             out["fortran_exc"] = type(e).__name__ + ":" + str(e)[:120]
     return out
